@@ -96,6 +96,41 @@ PROPS = {
         explanation="PARTIAL (a theorem cannot exhibit the Go scheduler or memory model). Theorems: the access table extracted from the Go sources on every run (which package-level variable each function of reader/writer/formats reads, writes, calls atomically or publishes, and under which mutex) satisfies the lock discipline; for any table that passes, any two thread accesses to the same variable with a write are both atomic sync operations or hold a common mutex one of them exclusively, and no package-level object is published into instances; sequential registry semantics (lookup after register/unregister, independence across formats). Tie: regenerated table (syntactic, fail-closed extractor); sequential registry histories vs the registry model; oracle: race-detector build stressing every entry-point mix from 16 goroutines with per-call comparison against sequential results.",
         assumptions=["the lockset extractor is syntactic (trusted to see every access to the listed package-level variables; aborts on constructs it does not understand)", "mutual exclusion of sync.RWMutex, atomicity of sync.Map/sync.Once methods and the Go memory model are trusted, not modelled", "data races in code reached through instances (not package-level state) are visible only to the race-detector stress"],
     ),
+    "C02": dict(
+        props_v="Props/C02.v",
+        corr_v=["Corr/CheckSpdx.v", "Corr/CheckCdx.v", "Corr/CheckXlate.v"],
+        n_quick=70, n_thorough=2500,
+        explanation="Theorems: every node other than the root is written as a component exactly once and the root as the metadata component, for every graph and every order of the stored edges (two-pass assembly; permutation theorem over the component forest); a component is nested only under the node that contains it; the nesting depth is never limited by the model's fuel (any larger fuel gives the same forest); every BOM reads back as a closed graph with unique non-empty identifiers; per node: id, name, version, description, copyright; file/package kind and native component type for every purpose CycloneDX has a type for (generated tables); licence list of length 0 or 1 (longer lists: refuted by witness, known finding K13); serial number, lifecycle phases (seven phase/type pairs inverse by computation). Correspondence on three seams: Serialize vs cdx_ser, JSON layer identity on the class at 1.4 and 1.5, Unserialize vs cdx_unser_nl. The statement that the containment tree read back equals the one written is decided by the oracle on every generated tree and by the seams; as a theorem it is stated in two halves (written forest sound and complete on nodes; read graph well formed), the composition through the graph operations is not yet a single theorem (partial).",
+        assumptions=["modelled: serializer_cdx.go Serialize/componentsMaps/dependencies/components/clearAutoRefs/nodeToComponent and unserializer_cdx.go Unserialize/componentToNodeList/componentToNode/licence and external-reference helpers as struct-level functions (Model/Cdx.v); the cyclonedx-go encoder/decoder pair is observed to be the identity on the class (CChan cases), not modelled", "hash, identifier and external-reference maps per node are compared by the seams and the oracle; the theorems cover scalar attributes, kind, component type, licences", "suppliers and metadata tools/authors are outside the property"],
+    ),
+    "C03": dict(
+        props_v="Props/C03.v",
+        corr_v=["Corr/CheckSpdx.v", "Corr/CheckCdx.v", "Corr/CheckXlate.v"],
+        n_quick=60, n_thorough=1500,
+        explanation="Theorems (arbitrary documents, not only round-trippable ones). SPDX 2.3: packages and files are a permutation of the node identifiers (every node exactly once, whatever its purposes), the relationships are exactly one per typed edge target plus one DESCRIBES per root, and no relationship names an element that was not emitted when the graph is closed. CycloneDX: every node other than the root is a component exactly once (DAGs, cycles, several containers), the root is the metadata component; a component is nested only under a node that contains it; every dependency edge is in the dependency list and the list names only nodes of the document. Correspondence: both Serialize seams and both Unserialize seams on generated graphs and on documents parsed from the repository's SBOMs and their mutants; oracle: writer output decoded with encoding/json only (every node once, every expressible relationship, no dangling reference) and read back (identity attributes).",
+        assumptions=["modelled: Model/Spdx.v and Model/Cdx.v (see C01, C02)", "reading back is checked for the formats that have a registered reader (SPDX 2.3, CycloneDX 1.3-1.5); CycloneDX 1.0/1.1 output is refused by the encoder for every document", "identity attributes after reading back (name, version, hashes, purl, CPE) are decided by the oracle and the seams; exemptions: CycloneDX before 1.4 writes version 0.0.0 for none, a root without a name is written under the document's name"],
+    ),
+    "C04": dict(
+        props_v="Props/C04.v",
+        corr_v=["Corr/CheckSpdx.v", "Corr/CheckCdx.v", "Corr/CheckXlate.v"],
+        n_quick=60, n_thorough=400,
+        explanation="PARTIAL. Theorems: the pipeline detect -> dispatch -> convert returns a document or an error for every declaration, every line list and every behaviour of the third-party decoder (a parameter), never a panic, both or neither; a CycloneDX result is always a closed graph; the conversion does not blow its input up (no more nodes than components / elements, edges plus roots = relationships); licence entries without a licence object are skipped. Oracle (the part no model reaches): every single schema fault (null, absent, four wrong types, empty, oversized, duplicated element, deep nesting, duplicated member) at up to n JSON paths of every SBOM in the repository under 80 kB and of writer output, plus truncations and random bytes, through reader.ParseStream with and without a stated format, under a 20 s watchdog; outcome classes document / error / panic / hang / both / neither / document without parts. Correspondence: for mutants the decoders accept, the real Unserialize against the model on the decoded structure.",
+        assumptions=["not proved: totality and running time of encoding/json, tools-golang and cyclonedx-go; nil entries inside decoded lists (the printers skip them, as the repaired code does); double faults are explored in the thorough tier only by sampling", "modelled: Model/Sniff.v (C06), Model/Spdx.v, Model/Cdx.v unserializers"],
+    ),
+    "C05": dict(
+        props_v="Props/C05.v",
+        corr_v=["Corr/CheckSpdx.v", "Corr/CheckCdx.v", "Corr/CheckXlate.v"],
+        n_quick=60, n_thorough=1500,
+        explanation="Theorems: every CycloneDX BOM value (any nesting, repeated or absent references, absent metadata component, self-containment) parses to a closed graph with unique identifiers, none of them empty, each either a component's reference or the generated identifier of its traversal position; SPDX identifiers and relationship endpoints are transferred verbatim, so the graph is closed whenever the input's references resolve and identifiers are as unique as the input's, and a dangling endpoint is always one the input left dangling; NewNodeIdentifier (model: Model/Ident.v, UUID as a parameter) is non-empty, over [a-zA-Z0-9.-] for every seed list, protobom-prefixed, and independent of the UUID whenever a seed is usable. Oracle on the real decoders: parse twice, two other JSON layouts (whitespace and member order; plus string escapes), auto-detection vs stated format; correspondence: Unserialize seams on generated native documents and mutants, generator vs model on seed lists. Known finding K12 (escaped spellings in strings tools-golang reads raw).",
+        assumptions=["layout independence lives in the third-party decoders and is decided by the oracle, not by a theorem; the modelled conversion is a function of the decoded value", "uniqueness of generated identifiers across components rests on the traversal counter (distinct positions); injectivity of the zero-padded decimal rendering is not proved"],
+    ),
+    "C07": dict(
+        props_v="Props/C07.v",
+        corr_v=["Corr/CheckSpdx.v", "Corr/CheckCdx.v", "Corr/CheckXlate.v"],
+        n_quick=60, n_thorough=1200,
+        explanation="Theorems: for every Document value both serializers return an output or an error, never a panic or exit; exactly which documents are accepted (SPDX: metadata and node list present; CycloneDX: additionally nothing at all, or one root that is a node, known document types, edge sources known and containment/dependency targets known — unknown enum numbers, empty and duplicate identifiers, cycles, dangling edges of other types are accepted); the nesting recursion terminates (any fuel above the number of distinct identifiers gives the same forest); the result is independent of the serialization history. Oracle: arbitrary Document values (absent parts, nil elements, unknown enums, duplicate and empty identifiers, dangling edges, cycles, no or many roots) x 7 registered formats, twice and once more after other serializations, canonical JSON compared, 10 s watchdog. Correspondence: Serialize seams on the same documents.",
+        assumptions=["documents with nil elements nested inside nodes (nil supplier, nil contact, nil external reference) or with lists of nil elements only are covered by the oracle, not by the model", "CycloneDX 1.0/1.1 are refused by the cyclonedx-go encoder for every document (observed)"],
+    ),
     "C01": dict(
         props_v="Props/C01.v",
         corr_v=["Corr/CheckSpdx.v"],
